@@ -248,7 +248,7 @@ func (m *fStompSubscriberTransport) Subscribe(topic string, callback FAsyncCallb
 	m.isSubscribed = true
 	m.callback = callback
 	m.topic = destination
-	go m.processMessages()
+	go m.processMessages(sub, m.stopC, callback)
 	return nil
 }
 
@@ -281,17 +281,17 @@ func (m *fStompSubscriberTransport) Unsubscribe() error {
 
 // processMessages call the given FAsyncCallback with messages from the
 // subscription channel.
-func (m *fStompSubscriberTransport) processMessages() {
-	stopC := m.stopC
-	// Unsubscribe clears m.callback while messages may still be buffered in
-	// the subscription channel: keep our own reference.
-	callback := m.callback
+func (m *fStompSubscriberTransport) processMessages(sub *stomp.Subscription, stopC chan bool, callback FAsyncCallback) {
+	// The subscription, its stop channel and its callback belong to this
+	// goroutine: Unsubscribe clears m.callback while messages may still be
+	// buffered, and a later Subscribe on this transport replaces m.sub and
+	// m.stopC while this goroutine may still be inside a callback.
 	for {
 		select {
 		case <-stopC:
 			logger().Errorf("frugal: error processing stomp subscription messages, message received on stop channel")
 			return
-		case message, ok := <-m.sub.C:
+		case message, ok := <-sub.C:
 			logger().Debugf("frugal: received stomp message on topic '%s'", m.topic)
 			if !ok {
 				logger().Errorf("frugal: error processing subscription messages, message channel closed")
